@@ -7,6 +7,7 @@ import (
 	"fmt"
 	"math/big"
 	"strings"
+	"testing/iotest"
 
 	"github.com/ipfs/go-cid"
 
@@ -27,7 +28,7 @@ func init() {
 		ID:         "C08",
 		Level:      "fault_enumeration",
 		Exhaustive: true,
-		Rule: "(1) CID agreement: for seeded tokens of both types and all key kinds, the CID returned by ToSealed, ToSealedWriter, FromSealed, FromSealedReader (typed and generic) and the keys of container.Reader (4 formats) must equal CIDv1(dag-cbor, sha2-256) of the sealed bytes computed by the harness. " +
+		Rule: "(1) CID agreement: for seeded tokens of both types and all key kinds, the CID returned by ToSealed, ToSealedWriter, FromSealed, FromSealedReader (typed and generic; plain, data-with-EOF, 1-byte and half-read streams) and the keys of container.Reader (4 formats) must equal CIDv1(dag-cbor, sha2-256) of the sealed bytes computed by the harness. " +
 			"(2) canonicity, fault enumeration over encodings: for each sealed token EVERY single-knob re-encoding at EVERY node of its CBOR tree (length prefix / integer widened to 1,2,4,8 bytes; definite -> indefinite for each array, map, byte and text string, whole and split in two chunks; each map's pairs reversed / rotated; each float narrowed when exact; null -> undefined), the all-knobs variant, unsigned extra elements appended to the envelope list, and for ECDSA / secp256k1 issuers the keyless signature re-encodings (s -> n-s, DER with padded integers / long-form lengths). A variant is kept only if the dependency decoder yields a node deep-equal to the original's; every kept variant must be rejected by every FromSealed* function and by the container readers (else two accepted byte strings with the same signed content have different CIDs). " +
 			"non-trivial = kept variant; distinct = variant bytes.",
 		Assumptions: []string{
@@ -57,11 +58,29 @@ func c08Decoders(typ string) []sealedDec {
 	out := []sealedDec{
 		{"token.FromSealed", token.FromSealed},
 		{"token.FromSealedReader", func(b []byte) (token.Token, cid.Cid, error) { return token.FromSealedReader(bytes.NewReader(b)) }},
+		// the same stream delivered in other legal ways: data together with EOF, one byte at a
+		// time, half reads
+		{"token.FromSealedReader(data+EOF)", func(b []byte) (token.Token, cid.Cid, error) {
+			return token.FromSealedReader(iotest.DataErrReader(bytes.NewReader(b)))
+		}},
+		{"token.FromSealedReader(1-byte)", func(b []byte) (token.Token, cid.Cid, error) {
+			return token.FromSealedReader(iotest.OneByteReader(bytes.NewReader(b)))
+		}},
+		{"token.FromSealedReader(half+data+EOF)", func(b []byte) (token.Token, cid.Cid, error) {
+			return token.FromSealedReader(iotest.DataErrReader(iotest.HalfReader(bytes.NewReader(b))))
+		}},
 	}
 	if typ == "dlg" {
 		out = append(out,
 			sealedDec{"delegation.FromSealed", func(b []byte) (token.Token, cid.Cid, error) {
 				t, c, err := delegation.FromSealed(b)
+				if err != nil {
+					return nil, c, err
+				}
+				return t, c, nil
+			}},
+			sealedDec{"delegation.FromSealedReader(data+EOF)", func(b []byte) (token.Token, cid.Cid, error) {
+				t, c, err := delegation.FromSealedReader(iotest.DataErrReader(bytes.NewReader(b)))
 				if err != nil {
 					return nil, c, err
 				}
@@ -78,6 +97,13 @@ func c08Decoders(typ string) []sealedDec {
 		out = append(out,
 			sealedDec{"invocation.FromSealed", func(b []byte) (token.Token, cid.Cid, error) {
 				t, c, err := invocation.FromSealed(b)
+				if err != nil {
+					return nil, c, err
+				}
+				return t, c, nil
+			}},
+			sealedDec{"invocation.FromSealedReader(data+EOF)", func(b []byte) (token.Token, cid.Cid, error) {
+				t, c, err := invocation.FromSealedReader(iotest.DataErrReader(bytes.NewReader(b)))
 				if err != nil {
 					return nil, c, err
 				}
